@@ -7,6 +7,7 @@
 (* (height, view) (C10), only consumer-approved blocks (C04).                                                                   *)
 EXTENDS LHNode
 CONSTANTS MaxView1,     \* views 0..MaxView1 at height 1 (height 2 stays in view 0)
+          Patient,      \* TRUE: a timer fires only when no delivery has any effect (random walks would otherwise time every view out)
           ByzBudget, Blocks, Hdr, Syncs   \* Syncs: whether node sync (UpdateState with the decided block of height 1) is explored
 VARIABLES nodes, net, bz, approved, decided, signed, pc, ev
 mcvars == <<hdr, nodes, net, bz, approved, decided, signed, pc, ev>>
@@ -48,7 +49,11 @@ ByzMsgs ==
      {[k |-> "PP", ht |-> "PP", inst |-> 0, h |-> h, v |-> v, vm |-> v % N(h), x |-> x, s |-> B, sig |-> TRUE, canon |-> TRUE, blk |-> x, bok |-> TRUE, okfor |-> OkFor(x)] :
         v \in {u \in ViewsOf(h) : Ldr(h, u) = B}, x \in Blocks}
      \cup {[k |-> "P", ht |-> "P", inst |-> 0, h |-> h, v |-> v, vm |-> v % N(h), x |-> x, s |-> B, sig |-> TRUE, canon |-> TRUE] : v \in ViewsOf(h), x \in Seen(h)}
-     \cup {[k |-> "C", ht |-> "C", inst |-> 0, h |-> h, v |-> v, vm |-> v % N(h), x |-> x, s |-> B, sig |-> TRUE, canon |-> TRUE, share |-> TRUE] : v \in ViewsOf(h), x \in Seen(h)}
+     \* a COMMIT carries a share over the random seed of its height, which derives from the block proof of the height before:
+     \* nobody - the Byzantine member included - can make one for height 2 before height 1 has been decided somewhere
+     \cup (IF h = 1 \/ \E k \in Honest : decided[k][1] # "-"
+          THEN {[k |-> "C", ht |-> "C", inst |-> 0, h |-> h, v |-> v, vm |-> v % N(h), x |-> x, s |-> B, sig |-> TRUE, canon |-> TRUE, share |-> TRUE] : v \in ViewsOf(h), x \in Seen(h)}
+          ELSE {})
      : h \in {g \in Heights : B \in Members(g)}}
 
 Init == /\ hdr = Hdr
@@ -69,20 +74,23 @@ Apply(n, fr, h0) ==
 
 Running(n) == nodes[n].ns.h \in Heights
 Start(n) == /\ nodes[n].ns.h = 0 /\ Apply(n, DoSync(nodes[n], n, 0, Propose(n)), 1) /\ UNCHANGED <<hdr, bz>>
-            /\ ev' = [t |-> "start", n |-> n]
+            /\ ev' = [t |-> "start", n |-> n, post |-> nodes'[n].ns]
 Recv(n, m) == /\ Running(n) /\ (m.k = "VC" => n \in m.to)
               /\ LET fr == Deliver(nodes[n], n, m, Propose(n)) IN
                  /\ (fr.ns # nodes[n].ns \/ fr.cache # nodes[n].cache \/ fr.out # <<>>)
                  /\ Apply(n, fr, nodes[n].ns.h)
-                 /\ ev' = [t |-> "recv", n |-> n, m |-> m]
-Time(n) == /\ Running(n) /\ nodes[n].ns.member /\ ~nodes[n].ns.committed
+                 /\ ev' = [t |-> "recv", n |-> n, m |-> m, post |-> fr.ns]
+Eff(n, m) == /\ Running(n) /\ m.s # n /\ (m.k = "VC" => n \in m.to)
+             /\ LET fr == Deliver(nodes[n], n, m, Propose(n)) IN fr.ns # nodes[n].ns \/ fr.cache # nodes[n].cache \/ fr.out # <<>>
+Quiet == \A n \in Honest : \A m \in net : ~Eff(n, m)
+Time(n) == /\ Running(n) /\ nodes[n].ns.member /\ ~nodes[n].ns.committed /\ (Patient => Quiet)
            /\ nodes[n].ns.view < (IF nodes[n].ns.h = 1 THEN MaxView1 ELSE 0)
            /\ Apply(n, DoTimeout(nodes[n], n, Propose(n)), nodes[n].ns.h) /\ UNCHANGED <<hdr, bz>>
-           /\ ev' = [t |-> "time", n |-> n]
+           /\ ev' = [t |-> "time", n |-> n, post |-> nodes'[n].ns]
 \* node sync: a node still at height 1 is handed the block some correct member decided there
 Sync(n) == /\ Syncs /\ nodes[n].ns.h = 1 /\ \E k \in Honest : decided[k][1] # "-"
            /\ Apply(n, DoSync(nodes[n], n, 1, Propose(n)), 2) /\ UNCHANGED <<hdr, bz>>
-           /\ ev' = [t |-> "sync", n |-> n]
+           /\ ev' = [t |-> "sync", n |-> n, b |-> 1, post |-> nodes'[n].ns]
 Next == \E n \in Honest :
           \/ Start(n) \/ Time(n) \/ Sync(n)
           \/ (\E m \in net : m.s # n /\ Recv(n, m) /\ UNCHANGED <<hdr, bz>>)
